@@ -61,6 +61,12 @@ def k3_reject(ctx):
     for row in v['rows']:
         if row['label'] == 'wf':
             continue
+        # compile-fail batches are chosen by what the model says about the definition: front-end rejections
+        # must produce the macro's diagnostic, model code 100 (colliding items) must be rejected by rustc
+        if row['label'].startswith('ambiguous') and row['model'] != 100:
+            continue
+        if not row['label'].startswith('ambiguous') and row['model'] in (0, 100, None):
+            continue
         by.setdefault(row['label'], []).append(row['i'])
     per = 6 if ctx.tier == 'quick' else 40
     front, amb = [], []
